@@ -17,7 +17,7 @@ import random
 
 import egsim  # noqa: F401
 from egsim import classes as C
-from egsim import engine, gen
+from egsim import engine, gen, seams
 from edgegraph.builder import randgraph as RG
 
 EDGES = [
@@ -106,7 +106,7 @@ def call(op):
         kw["connectivity"] = op["conn"]
     if "ensure" in op:
         kw["ensurelink"] = op["ensure"]
-    with DebugLogging(bool(op.get("debug_log"))):
+    with seams.WarningsAsErrors(bool(op.get("w_error"))), DebugLogging(bool(op.get("debug_log"))):
         mode = op.get("bias")
         if mode:
             with Biased(mode):
@@ -174,6 +174,7 @@ class C20(engine.Property):
     ]
     expected_probes = [
         "debug-logging-on-during-the-call",
+        "warnings-as-errors-during-the-call",
         "edge-class-that-calls-randgraph-itself",
         "count-1",
         "count<=5-default-connectivity",
@@ -196,6 +197,7 @@ class C20(engine.Property):
             "p_continue": rng.choice([0.0, 0.3, 0.6]),
             "max_count": rng.choice([6, 15, 40]),
             "p_debug_log": rng.choice([0.0, 0.0, 0.3]),
+            "p_w_error": rng.choice([0.0, 0.0, 0.3]),
         }
 
     def start(self, cfg):
@@ -226,6 +228,9 @@ class C20(engine.Property):
             op["reseed"] = None
         else:
             op["reseed"] = rng.getrandbits(32)
+        if rng.random() < cfg.get("p_w_error", 0.0):
+            # the application runs with warnings turned into errors
+            op["w_error"] = True
         if rng.random() < cfg.get("p_debug_log", 0.0):
             # the application has turned debug logging on for the library
             op["debug_log"] = True
@@ -239,6 +244,9 @@ class C20(engine.Property):
         ensure = op.get("ensure", True)
         if count == 1:
             s["probe:count-1"] += 1
+        if op.get("w_error"):
+            s["probe:warnings-as-errors-during-the-call"] += 1
+            s["fault:process-wide-setting-changed"] += 1
         if op.get("debug_log"):
             s["probe:debug-logging-on-during-the-call"] += 1
             s["fault:process-wide-setting-changed"] += 1
